@@ -15,7 +15,7 @@ package operations
 //@   ensures [trailer-on-success] err == nil && hdrWrites > old(hdrWrites) ==> trailers > old(trailers)
 //@   property C09
 //@   at call WriteHeader#1 assert [sealed-before-write] o.pipes.Encryption != "" ==> hdrSealed[arg_hdr]
-//@   property C10
+//@   property C10 also C11
 //@   safety C10
 //@   requires o != nil && opsReady(o) && opsIdle(o)
 //@   modifies *, driveHeld, mutexHeld[addr(o.diskOperationLock)], tapeWrites, indexWrites, ghosts(C04), ghosts(C08), ghosts(C09), ghosts(C05), ghosts(C14), ghosts(C07), opDeletes
@@ -30,7 +30,7 @@ package operations
 //@   ensures [trailer-on-success] err == nil && hdrWrites > old(hdrWrites) ==> trailers > old(trailers)
 //@   property C09
 //@   at call WriteHeader#1 assert [sealed-before-write] o.pipes.Encryption != "" ==> hdrSealed[arg_hdr]
-//@   property C10
+//@   property C10 also C11
 //@   safety C10
 //@   requires o != nil && opsReady(o) && opsIdle(o)
 //@   modifies *, driveHeld, mutexHeld[addr(o.diskOperationLock)], tapeWrites, indexWrites, ghosts(C04), ghosts(C08), ghosts(C09), ghosts(C05), ghosts(C14), ghosts(C07), opMoves
@@ -40,7 +40,7 @@ package operations
 //@ func (*Operations).Restore
 //@   property C04
 //@   at call Fetch assert [uses-row-position] arg_record == dbhdr.Record && arg_block == dbhdr.Block
-//@   property C10
+//@   property C10 also C11
 //@   safety C10
 //@   requires o != nil && opsReady(o) && opsIdle(o)
 //@   modifies *, driveHeld, mutexHeld[addr(o.diskOperationLock)], ghosts(C04), ghosts(C08), ghosts(C09), ghosts(C05), ghosts(C14), ghosts(C07)
@@ -48,7 +48,7 @@ package operations
 //@   ensures [ops-free] !mutexHeld[addr(o.diskOperationLock)]
 
 //@ func (*Operations).Archive
-//@   property C10
+//@   property C10 also C11
 //@   safety C10
 //@   requires o != nil && opsReady(o) && opsIdle(o) && getSrc != nil
 //@   modifies *, driveHeld, mutexHeld[addr(o.diskOperationLock)], tapeWrites, indexWrites, ghosts(C04), ghosts(C08), ghosts(C09), ghosts(C05), ghosts(C14), ghosts(C07)
@@ -66,7 +66,7 @@ package operations
 //@   ensures [trailer-on-success] err == nil && hdrWrites > old(hdrWrites) ==> trailers > old(trailers)
 //@   property C09
 //@   at call WriteHeader#1 assert [sealed-before-write] o.pipes.Encryption != "" ==> hdrSealed[arg_hdr]
-//@   property C10
+//@   property C10 also C11
 //@   safety C10
 //@   requires o != nil && opsReady(o) && !driveHeld && getSrc != nil
 //@   modifies *, driveHeld, tapeWrites, indexWrites, ghosts(C04), ghosts(C08), ghosts(C09), ghosts(C05), ghosts(C14), ghosts(C07)
@@ -85,7 +85,7 @@ package operations
 //@   property C09
 //@   at call WriteHeader#1 assert [sealed-before-write] o.pipes.Encryption != "" ==> hdrSealed[arg_hdr]
 //@   at call WriteHeader#2 assert [sealed-before-write-meta] o.pipes.Encryption != "" ==> hdrSealed[arg_hdr]
-//@   property C10
+//@   property C10 also C11
 //@   safety C10
 //@   requires o != nil && opsReady(o) && opsIdle(o) && getSrc != nil
 //@   modifies *, driveHeld, mutexHeld[addr(o.diskOperationLock)], tapeWrites, indexWrites, ghosts(C04), ghosts(C08), ghosts(C09), ghosts(C05), ghosts(C14), ghosts(C07)
@@ -93,7 +93,7 @@ package operations
 //@   ensures [ops-free] !mutexHeld[addr(o.diskOperationLock)]
 
 //@ func (*Operations).Initialize
-//@   property C10
+//@   property C10 also C11
 //@   safety C10
 //@   requires o != nil && opsReady(o) && opsIdle(o)
 //@   modifies *, driveHeld, mutexHeld[addr(o.diskOperationLock)], tapeWrites, indexWrites, ghosts(C04), ghosts(C08), ghosts(C09), ghosts(C05), ghosts(C14), ghosts(C07)
